@@ -51,15 +51,24 @@ def repo_lib_files():
 
 
 def _prune(dirpath, keep):
-    """Keep the cache small: drop all but the `keep` most recently used entries."""
+    """Keep the cache small: drop all but the `keep` most recently used entries - but never one used in the last
+    three hours (several checks, mutation campaigns and background runs may share the cache)."""
     try:
-        ents = [os.path.join(dirpath, e) for e in os.listdir(dirpath)]
+        now = time.time()
+        ents = []
+        for e in os.listdir(dirpath):
+            p = os.path.join(dirpath, e)
+            try:
+                if os.path.isdir(p):
+                    ents.append((os.path.getmtime(p), p))
+            except OSError:
+                pass
+        ents.sort(reverse=True)
+        for mt, p in ents[keep:]:
+            if now - mt > 3 * 3600:
+                shutil.rmtree(p, ignore_errors=True)
     except OSError:
-        return
-    ents = [e for e in ents if os.path.isdir(e)]
-    ents.sort(key=lambda e: os.path.getmtime(e), reverse=True)
-    for e in ents[keep:]:
-        shutil.rmtree(e, ignore_errors=True)
+        pass
 
 
 # --------------------------------------------------------------------------- library builds
